@@ -51,6 +51,13 @@ def special_sources():
         add('for-long-%d' % n, "for i in y:\n" + "".join("    x = x + %d\n" % i for i in range(n)) + "else:\n    z = 1\n")
         add('while-mod-%d' % n, "x = 0\n" + "".join("x = x + %d\n" % i for i in range(n)) + "while x:\n    x = x - 1\n")
     add('nan-dup', "a = 1e999-1e999; b = 1e999-1e999\n")
+    # two distinct NaN constants loaded first, second, first again (the compiler duplicates finally bodies on 3.9+,
+    # loop tests on 3.10): the decoder has to keep the override the encoder needs
+    add('nan-finally', "try:\n    g()\nfinally:\n    a = 1e999-1e999\n    b = 1e999-1e999\n")
+    add('nan-finally-fn', "def f():\n    try:\n        return g()\n    finally:\n        a = (1e999-1e999, 1)\n        b = (1e999-1e999, 1)\n        c = -(1e999-1e999)\n")
+    add('nan-while', "while x < (1e999-1e999) or y < (1e999-1e999):\n    x += 1\n")
+    add('nan-reuse', "a = 1e999-1e999\nb = 1e999-1e999\nfor i in y:\n    c = (1e999-1e999) if i else (1e999-1e999)\n")
+    add('nan-lambdas', "x = [lambda: 1e999-1e999, lambda: 1e999-1e999]\ntry:\n    g()\nfinally:\n    y = [lambda: 1e999-1e999, lambda: 1e999-1e999]\n")
     add('nan-tuple', "a = (1e999-1e999, 1); b = (1e999-1e999, 1); c = -(1e999-1e999)\n")
     add('zeros', "a = 0.0; b = -0.0; c = 0; d = False; e = 0j; f = -0j; g = (0.0, -0.0); h = (-0.0, 0.0)\n")
     add('ones', "a = 1; b = 1.0; c = True; d = (1, 1.0, True); e = 1+0j\n")
